@@ -4,6 +4,8 @@ import Proofs.Hamming
 import Theorems.C03
 import Theorems.C01
 import Proofs.BM
+import Proofs.Reed
+import Theorems.C02R
 /-!
 # C02 — hard-decision decoders correct every error pattern within advertised capability
 
@@ -128,7 +130,26 @@ theorem bm_corrects_small (c : BchInst) (hc : c ∈ Generated.C03B.instances) (h
   BMProofs.bm_decodes c ((c.delta - 1) / 2) (C03.bch_ok c hc)
     (by unfold bmSmall at hs; simp only [Bool.and_eq_true, decide_eq_true_eq] at hs; omega) (bm_light_small c hc hs) msg e hm he hw
 
+/-! ## Reed's majority-logic decoder (model `Kaira/Reed.lean` of `ReedMullerDecoder`, hard input)
+
+`Generated.C02R.instances`: generator rows and the check groups `get_reed_partitions()` publishes, regenerated from `/repo`.
+`ReedProofs.reed_corrects` is the unbounded theorem (any rows, any groups passing the certificate: each group sees its own row
+with odd parity and every row still to be peeled with even parity, groups disjoint, more than 2t of them); the kernel
+evaluates the certificate on every Reed–Muller instance of the catalogue. -/
+
+/-- **the Reed decoder returns the message for every message and every error pattern of weight ≤ t** on every catalogue
+Reed–Muller code -/
+theorem reed_decoder_corrects (c : Kaira.Reed.ReedInst) (hc : c ∈ Generated.C02R.instances) (u e : Nat) (hu : u < 2 ^ c.k)
+    (hw : weight c.n e ≤ c.t) : Kaira.Reed.reedDecode c.n c.G c.parts (encode c.G u ^^^ e) = u :=
+  ReedProofs.reed_corrects c (reed_ok c hc) u e hu hw
+
+/-- the Reed instances are catalogue instances with `t = ⌊(d-1)/2⌋` of the advertised distance -/
+theorem reed_instances_in_catalogue : ∀ c ∈ Generated.C02R.instances, ∃ d ∈ Generated.C03.instances,
+    d.name = c.name ∧ d.n = c.n ∧ d.k = c.k ∧ d.G = c.G ∧ c.t = (d.advD - 1) / 2 := by
+  decide +kernel
+
 /-! ## non-vacuity -/
+example : ∃ c ∈ Generated.C02R.instances, c.n = 32 ∧ c.t = 3 := by decide +kernel
 example : ∃ c ∈ Generated.C03B.instances, bmSmall c = true ∧ c.n = 15 ∧ c.delta = 3 := by decide +kernel
 example : hammingInverse [0b011, 0b101, 0b110, 0b111, 0b001, 0b010, 0b100] [0, 1, 2, 3]
     (encode [0b0110001, 0b1010010, 0b1100100, 0b1111000] 0b1011 ^^^ (1 <<< 5)) = 0b1011 := by decide +kernel
